@@ -3,7 +3,19 @@ import random, struct, itertools, json, re
 
 PID = 'C20'
 HEADER = []
-RULE = ('netstring: every chunking of short frame sequences (stream <= 11 bytes) and random chunkings of longer ones, fed as raw bytes '
+RULE = ('end of stream: short frame sequences ended at EVERY offset on a scripted chunk stream, the real StdioStream over a stringstream and '
+        'over an fstream of a temporary file, complete frames followed by every kind of remainder (nothing, partial header, partial payload, '
+        'terminator missing, newline/garbage, malformed), every chunking of short truncated streams with and without empty fills, frames '
+        'larger than one 64 KiB fill, the hostile list ended, the limit together with the end, random cuts; the callers\' loop is driven with '
+        'a bound on the number of calls (end=loop instead of a hang) and ConfigObject::RestoreObjects itself runs on truncated state files in a '
+        'forked child under a CPU-time limit; TLS readers with the peer closing (close_notify or dropped transport) at every offset, '
+        'JsonRpc::ReadMessage+DecodeMessage as the reader coroutine runs them; the real writers on payloads of 10^k-1/10^k/10^k+1 bytes '
+        '(k = 1..6, thorough ..7) and around the 1 MiB anonymous limit against the buffered and the coroutine TLS reader (both ends AsioTlsStream); '
+        'JSON: every control character/NUL/DEL/quote/backslash alone and between plain characters as value AND key at nesting 0..3, numbers '
+        'around 2^31/2^32/2^53/2^63/2^64/10^15..10^17 (+-1, +-2, +-1024, +-2048), -0 spellings, huge exponents, 400-digit literals, strings of '
+        '1 KB..30 KB (thorough 1 MB) as value and key, nesting limit-1/limit/limit+1 and up to 1000 (thorough 3000) for JsonDecode AND '
+        'JsonDecodeTrusted, the hostile documents through both decoders; '
+        'netstring: every chunking of short frame sequences (stream <= 11 bytes) and random chunkings of longer ones, fed as raw bytes '
         'and through the real writer, payload lengths around 9/10/99/100/4096/65536+; hostile streams = grammar-aware mutations of valid '
         'frames (leading zero, non-digit header bytes, 16/17/18-byte headers, missing colon/comma, 9/10/11 digit lengths, declared length '
         'around the limit, truncation) and random bytes, for the buffered (FIFO+StreamReadContext) and both AsioTlsStream variants '
@@ -14,7 +26,8 @@ RULE = ('netstring: every chunking of short frame sequences (stream <= 11 bytes)
         'JsonDecode and JsonRpc::DecodeMessage, nesting 1..20000 (both sides of the source\'s limit 128) on a 256 KiB coroutine stack. '
         'non-trivial = at least one frame/value/error observed; distinct = distinct script text')
 TRUSTED = ['model: coq/Codec/NsModel.v (transcription of lib/base/netstring.cpp:26-101,129-277,331-334 and the StreamReadContext '
-           'handling of lib/base/stream.cpp:111-144 with what FillFromStream delivers as an input), coq/Codec/JsModel.v (transcription of '
+           'handling of lib/base/stream.cpp:111-144 with what FillFromStream delivers as an input: a list of fills, then the end; '
+           'ns_loop = the `for (;;) { read; if Eof break; if !NewItem continue; handle }` loop of RestoreObjects/ReplayLog/the CLI readers), coq/Codec/JsModel.v (transcription of '
            'lib/base/json.cpp, of nlohmann serializer::dump_escaped/dump_integer (ensure_ascii), lexer and strict SAX parser, and of '
            'utf8::replace_invalid)',
            'binary64 printing/parsing (nlohmann Grisu2 to_chars, strtod) is a parameter of the JSON model, instantiated by OCaml '
@@ -22,7 +35,14 @@ TRUSTED = ['model: coq/Codec/NsModel.v (transcription of lib/base/netstring.cpp:
            'decoded values always (bit patterns)',
            'harness/ops_codec.cpp replaces global operator new to record the largest single request while a frame is read; '
            'the TLS peer is plain OpenSSL on a socketpair; the server side is the real AsioTlsStream']
-ASSUMPTIONS = ['for non-integral or out-of-64-bit-range finite doubles: printing is inverted by parsing (Section hypothesis js_fparse_fprint; '
+ASSUMPTIONS = ['StreamReadContext::FillFromStream returns false exactly when no byte arrived and the stream reports EOF, and appends what arrived '
+               'otherwise (lib/base/stream.cpp:111-137, not modelled below that line; exercised on three stream types)',
+               'source facts (tools/facts_c20.py -> Facts_c20): digit limits, limit tests, default/anonymous/endpoint maxMessageLength, the plain '
+               'writer, the callers of the buffered reader, both JSON decoders and the decoder RestoreObject uses are recognised by regular '
+               'expressions over the source text; an unrecognised shape degrades the limit theorems to True (listed by srcfacts)',
+               'js_long / ns_wbig (payloads built inside the harness): the expectation is computed from the model on the pattern / from the '
+               'theorems C20_ns_writer_boundaries and C20_json_roundtrip, not by running the model on the whole payload',
+               'for non-integral or out-of-64-bit-range finite doubles: printing is inverted by parsing (Section hypothesis js_fparse_fprint; '
                'exhibited on every generated double by the real round trip)',
                'the ill-formed-UTF-8 test of the nlohmann lexer/serializer never fires after Utility::ValidateUTF8 '
                '(both accept exactly well-formed UTF-8; exercised, not proved)',
@@ -649,7 +669,8 @@ def keep_line(l):
 
 
 def extra_stats(cases, impl):
-    st = {'frames_delivered': 0, 'buffered_errors': 0, 'stream_errors': 0, 'stream_short': 0, 'json_values_roundtripped': 0,
+    st = {'eof_loops_ended_eof': 0, 'eof_loops_ended_err': 0, 'eof_loops_not_ended': 0, 'restoreobjects_runs': 0, 'writer_boundary_runs': 0, 'long_strings': 0,
+          'frames_delivered': 0, 'buffered_errors': 0, 'stream_errors': 0, 'stream_short': 0, 'json_values_roundtripped': 0,
           'json_decode_ok': 0, 'json_decode_err': 0, 'crash_lines': 0}
     for c in cases:
         for l in impl.get(c['id'], []):
@@ -659,6 +680,16 @@ def extra_stats(cases, impl):
                     st['frames_delivered'] += m.group(1).count(',') + 1
                 if 'st=err' in l:
                     st['buffered_errors'] += 1
+            elif l.startswith('ns_eof'):
+                st['eof_loops_ended_eof'] += 'end=eof' in l
+                st['eof_loops_ended_err'] += 'end=err' in l
+                st['eof_loops_not_ended'] += 'end=loop' in l
+            elif l.startswith('ns_restore'):
+                st['restoreobjects_runs'] += 1
+            elif l.startswith('ns_wbig'):
+                st['writer_boundary_runs'] += 1
+            elif l.startswith('js_long'):
+                st['long_strings'] += 1
             elif l.startswith('nss_read') or l.startswith('nss_msg'):
                 st['stream_errors'] += 'end=err' in l
                 st['stream_short'] += 'end=short' in l
